@@ -56,3 +56,7 @@ func (b *Badger) VerifRawPut(key string, value []byte) error {
 		return txn.Set([]byte(key), value)
 	})
 }
+
+// VerifDropAll drops all data including badger's own tombstones and old versions
+// (keeps the LSM tree small when a database is reused for many histories).
+func (b *Badger) VerifDropAll() error { return b.db.DropAll() }
